@@ -1,5 +1,5 @@
 //! C12 — all events of a context live on one shard; unscoped reads cover all shards.
-//! Context-id alphabet x shard counts 1..8, 11, 12, 16, 300, two process lifetimes.
+//! Context-id alphabet x shard counts 1..8, 11, 12, 16, 300; plus a busy context (more than 4096, thorough 8192, events of one context in one lifetime on 1 and 2 shards: one tag, below the shard count, complete scoped read), two process lifetimes.
 use crate::job::{Op, SnapMode};
 use crate::lab::*;
 use crate::sys::SysConfig;
@@ -191,9 +191,50 @@ pub fn check(tier: &str) -> i32 {
         let _ = std::fs::remove_dir_all(&dir);
         Ok((viol, judged))
     });
+    // a busy context: more than 4096 (thorough: 8192) events of one context in one process lifetime, one
+    // shard and two shards; every id of the context carries one tag, the tag is below the shard count,
+    // and the scoped read returns every event
+    let busy_n: i64 = if tier == "quick" { 4200 } else { 8300 };
+    let busy_work: Vec<usize> = vec![1, 2];
+    let busy = par_map(&busy_work, threads(), |wi, n| -> Result<(Vec<String>, usize), String> {
+        let cfg = SysConfig { shards: *n, fill_factor: 200, event_per_zone: 1000, ..Default::default() };
+        let dir = scratch.dir.join(format!("busy{wi}"));
+        let mut l1 = vec![Op::Cmd { text: "DEFINE t FIELDS { k: \"int\", c: \"string\" }".into() }];
+        for c in ["busy", "other", "third"] {
+            let m = if c == "busy" { busy_n } else { 3 };
+            for i in 0..m {
+                l1.push(Op::Cmd { text: format!("STORE t FOR {c} PAYLOAD {}", json!({"k": i, "c": c})) });
+            }
+        }
+        l1.push(Op::Observe { queries: vec!["QUERY t FOR busy".into(), "QUERY t FOR other".into(), "QUERY t FOR third".into()] });
+        let rr = run_lifetimes(&dir, &cfg, 77 + wi as u64, &[LifeSpec { ops: l1, snap: SnapMode::Off, fsmon: false }], false)?;
+        if let Some(e) = &rr[0].error {
+            return Err(e.clone());
+        }
+        let mut viol = Vec::new();
+        let obs = rr[0].steps.last().unwrap();
+        for (qi, (c, m)) in [("busy", busy_n), ("other", 3), ("third", 3)].iter().enumerate() {
+            let rep = &obs.replies[qi];
+            if rep.rows.len() as i64 != *m {
+                viol.push(format!("scoped-read: shards={n} busy lifetime: QUERY t FOR {c} returned {} rows, stored {m}", rep.rows.len()));
+            }
+            let mut tags: BTreeMap<usize, usize> = BTreeMap::new();
+            for id in rep.rows.iter().filter_map(|r| r.get("event_id").and_then(|v| v.as_u64())) {
+                *tags.entry(((id >> 12) & 0x3ff) as usize).or_insert(0) += 1;
+            }
+            if tags.len() > 1 {
+                viol.push(format!("split-context: shards={n} context {c:?} with {m} events in one lifetime carries shard tags {tags:?}"));
+            }
+            if let Some(t) = tags.keys().find(|t| **t >= *n) {
+                viol.push(format!("tag-out-of-range: shards={n} context {c:?} carries shard tag {t}"));
+            }
+        }
+        let _ = std::fs::remove_dir_all(&dir);
+        Ok((viol, 6))
+    });
     let mut by_tag: BTreeMap<String, Vec<String>> = BTreeMap::new();
     let mut judged = 0usize;
-    for r in &res {
+    for r in res.iter().chain(busy.iter()) {
         match r {
             Err(e) => {
                 eprintln!("MACHINERY: {e}");
@@ -227,7 +268,7 @@ pub fn check(tier: &str) -> i32 {
         coverage: json!({
             "evaluations": judged,
             "distinct_nontrivial": ctxs.len() * work.len(),
-            "rule": format!("{} context ids (all strings of length <= 3 over a 9-symbol alphabet incl. upper/lower case, punctuation and a non-ASCII letter (length 3 thinned in quick), case / whitespace variants, CJK, 1 KB ids) x shard counts 1..8, 11, 12, 16, 300 x restart kind {{clean shutdown, kill}}: one STORE per context in each of two process lifetimes (different hash seeds), then QUERY FOR each context, REPLAY FOR 40 of them, a second event type stored and read for 60 of them, one unscoped QUERY, and the WAL directories on disk; distinct_nontrivial = (context, shard count, restart) triples", ctxs.len()),
+            "rule": format!("{} context ids (all strings of length <= 3 over a 9-symbol alphabet incl. upper/lower case, punctuation and a non-ASCII letter (length 3 thinned in quick), case / whitespace variants, CJK, 1 KB ids) x shard counts 1..8, 11, 12, 16, 300; plus a busy context (more than 4096, thorough 8192, events of one context in one lifetime on 1 and 2 shards: one tag, below the shard count, complete scoped read) x restart kind {{clean shutdown, kill}}: one STORE per context in each of two process lifetimes (different hash seeds), then QUERY FOR each context, REPLAY FOR 40 of them, a second event type stored and read for 60 of them, one unscoped QUERY, and the WAL directories on disk; distinct_nontrivial = (context, shard count, restart) triples", ctxs.len()),
             "samples": ctxs.iter().step_by((ctxs.len() / 10).max(1)).take(10).map(|c| json!(if c.len() > 40 { format!("{}...<{} bytes>", &c.chars().take(20).collect::<String>(), c.len()) } else { c.clone() })).collect::<Vec<_>>(),
             "contexts": ctxs.len(),
             "shard_counts": shard_counts,
